@@ -122,6 +122,10 @@ type run struct {
 	closerStarted   bool
 	closerStartedAt time.Duration
 	writeStuck      bool
+	settled         bool
+	settledRead     int
+	settledSent     int
+	settledAt       time.Duration
 	jseq            int
 	refusalSince    time.Duration
 	inRead          bool
